@@ -761,7 +761,7 @@ Theorem step_inv : forall g s l s', Inv g s -> step g s l = Some s' -> Inv g s'.
 Proof.
   intros g s l s' H E. destruct l; simpl in E.
   - eapply main_step_inv; eauto.
-  - destruct (n_running s <? threads g); try discriminate. eapply p_start_inv; eauto.
+  - destruct (pool_busy s <? threads g); try discriminate. eapply p_start_inv; eauto.
   - eapply p_handle_inv; eauto.
   - eapply p_finish_inv; eauto.
   - eapply p_finlock_inv; eauto.
@@ -895,7 +895,7 @@ Proof.
     + inv_some. simpl in Hx'. congruence.
     + discriminate.
     + discriminate.
-  - destruct (n_running s <? threads g); try discriminate. unfold p_start, getc in E.
+  - destruct (pool_busy s <? threads g); try discriminate. unfold p_start, getc in E.
     destruct (nth_error (conns s) c0) as [x0|] eqn:Hx0; try discriminate. destruct (st x0); try discriminate.
     inv_some. simpl in Hx'. upd_cases Hx' c; try congruence. same_conn Hx Hx'. discriminate.
   - unfold p_handle, getc in E.
@@ -1026,7 +1026,7 @@ Theorem step_ext : forall g s l s', step g s l = Some s' -> ext (conns s) (conns
 Proof.
   intros g s l s' E. destruct l; simpl in E.
   - eapply main_step_ext; eauto.
-  - destruct (n_running s <? threads g); try discriminate. eapply p_start_ext; eauto.
+  - destruct (pool_busy s <? threads g); try discriminate. eapply p_start_ext; eauto.
   - eapply p_handle_ext; eauto.
   - eapply p_finish_ext; eauto.
   - eapply p_finlock_ext; eauto.
@@ -1166,7 +1166,7 @@ Theorem step_bnd : forall g s l s', Bnd g s -> step g s l = Some s' -> Bnd g s'.
 Proof.
   intros g s l s' H E. destruct l; simpl in E.
   - eapply main_step_bnd; eauto.
-  - destruct (n_running s <? threads g); try discriminate. destruct (p_start_same _ _ _ E) as [A [_ [B _]]].
+  - destruct (pool_busy s <? threads g); try discriminate. destruct (p_start_same _ _ _ E) as [A [_ [B _]]].
     unfold Bnd in *. rewrite A, B. auto.
   - destruct (p_handle_same _ _ _ _ E) as [A [_ [B _]]]. unfold Bnd in *. rewrite A, B. auto.
   - destruct (p_finish_same _ _ _ _ E) as [A [_ [B _]]]. unfold Bnd in *. rewrite A. lia.
@@ -1250,7 +1250,7 @@ Theorem step_tm : forall g s l s', Tm s -> step g s l = Some s' -> Tm s'.
 Proof.
   intros g s l s' H E. destruct l; simpl in E.
   - eapply main_step_tm; eauto.
-  - destruct (n_running s <? threads g); try discriminate. destruct (p_start_same _ _ _ E) as [A [_ [_ B]]].
+  - destruct (pool_busy s <? threads g); try discriminate. destruct (p_start_same _ _ _ E) as [A [_ [_ B]]].
     unfold Tm in *. rewrite A, B. auto.
   - destruct (p_handle_same _ _ _ _ E) as [A [_ [_ B]]]. unfold Tm in *. rewrite A, B. auto.
   - destruct (p_finish_same _ _ _ _ E) as [A [_ [_ B]]]. unfold Tm in *. rewrite A, B. auto.
@@ -1314,7 +1314,7 @@ Proof.
     + inv_some. simpl in Hx'. congruence.
     + discriminate.
     + discriminate.
-  - destruct (n_running s <? threads g); try discriminate. unfold p_start, getc in E.
+  - destruct (pool_busy s <? threads g); try discriminate. unfold p_start, getc in E.
     destruct (nth_error (conns s) c0) as [x0|] eqn:Hx0; try discriminate. destruct (st x0); try discriminate.
     inv_some. simpl in Hx'. upd_cases Hx' c; try congruence; same_conn Hx Hx'; discriminate.
   - unfold p_handle, getc in E.
@@ -1392,7 +1392,7 @@ Proof.
       assert (Hlt : (nr_conns s <? wconn g) = false) by (apply Z.ltb_ge; lia). rewrite Hlt.
       split; [|split; [apply same_service_conns; reflexivity|reflexivity]].
       unfold stalled. simpl. repeat split; auto.
-  - destruct (n_running s <? threads g); try discriminate. unfold p_start in E.
+  - destruct (pool_busy s <? threads g); try discriminate. unfold p_start in E.
     destruct (getc s c) as [x|] eqn:Hx; try discriminate. destruct (st x) eqn:Hst; try discriminate.
     exfalso. eapply not_quiet_none; eauto. rewrite Hst. auto.
   - unfold p_handle in E. destruct (getc s c) as [x|] eqn:Hx; try discriminate. destruct (st x) eqn:Hst; try discriminate.
